@@ -106,6 +106,12 @@ fn dump_crate<'tcx>(tcx: TyCtxt<'tcx>, name: &str) -> J {
         }
     }
 
+    let mut n_ctor_fns = 0i128;
+    for ldid in tcx.mir_keys(()).iter() {
+        if let DefKind::Ctor(_, rustc_hir::def::CtorKind::Fn) = tcx.def_kind(ldid.to_def_id()) {
+            n_ctor_fns += 1;
+        }
+    }
     for ldid in tcx.hir_body_owners() {
         let did = ldid.to_def_id();
         let kind = tcx.def_kind(did);
@@ -128,6 +134,7 @@ fn dump_crate<'tcx>(tcx: TyCtxt<'tcx>, name: &str) -> J {
             J::s(if tcx.sess.opts.debug_assertions { "dev" } else { "release" }),
         ),
         ("overflow_checks", J::Bool(tcx.sess.overflow_checks())),
+        ("n_ctor_fns", J::Int(n_ctor_fns)),
         ("files", J::Arr(files.into_iter().map(J::Str).collect())),
         ("adts", J::Obj(adts)),
         ("consts", J::Obj(consts)),
